@@ -27,6 +27,21 @@ def run_ch(ob, budget: float) -> dict:
     from crosshair.condition_parser import condition_parser, get_current_parser
     from crosshair.fnutil import FunctionInfo
 
+    from crosshair import core as _core
+    from crosshair.statespace import VerificationStatus
+    from vf import hlib
+
+    _orig_attempt = _core.attempt_call
+
+    def _attempt(*a, **kw):
+        del hlib.PATH_SITES[:]
+        res = _orig_attempt(*a, **kw)
+        if res.verification_status == VerificationStatus.CONFIRMED:
+            for s in set(hlib.PATH_SITES):
+                hlib.REACHED[s] = hlib.REACHED.get(s, 0) + 1
+        return res
+
+    _core.attempt_call = _attempt
     seed = int(os.environ.get("VERIF_SEED", "0") or 0)
     if seed:
         import random
@@ -62,6 +77,7 @@ def run_ch(ob, budget: float) -> dict:
         "cpu_s": round(time.process_time() - t0, 3),
         "wall_s": round(time.perf_counter() - w0, 3),
         "messages": msgs,
+        "reached": dict(hlib.REACHED),
     }
     states = {m["state"] for m in msgs}
     if "PRE_UNSAT" in states:
